@@ -15,3 +15,4 @@ def run(chk):
     core_rules.accessor_rules(chk, "C01")
     core_rules.fresh_read_rules(chk, "C01")
     core_rules.update_after_liquidation(chk, "C01")
+    core_rules.security_setup_rules(chk, "C01")
